@@ -104,6 +104,19 @@ CLAIMS['C16'] = dict(
          'inequality or conservation under arbitrary source binning (raysect Spectrum.integrate).',
     technique='effects/derived-state closure over Python classes (lazy-sentinel typestate), constructor-initialisation check, structural formula matching')
 
+CLAIMS['C13'] = dict(
+    text='Decides structural necessary conditions: an interval analysis with outward IEEE rounding of the inline remainder(x, p) '
+         'shows every non-degenerate return value lies in [0, p) (the clause about the periodic range, including tiny negative '
+         'arguments); for each of the 22 tabulated wrapper classes plus Swizzle3D the value returned by evaluate, in exact normal '
+         'form with fields traced to the constructor parameter that initialised them, is the wrapped function evaluated exactly '
+         'once at the documented mapped argument on every branch (iso-mapping, swizzles, slices, axisymmetric and cylindrical '
+         'maps with rotation by the toroidal angle in degrees, input/output clamps, per-coordinate periodic reduction); in all 14 '
+         'samplers the k-th output index is the loop variable indexing the k-th coordinate array passed as k-th argument, loops '
+         'cover the full counts, range samplers use linspace with both end points and point samplers read column k for '
+         'coordinate k. Does not decide point-in-polygon (triangulation) or behaviour for huge/subnormal arguments other than '
+         'the periodic range.',
+    technique='interval abstract interpretation with rounding, exact normal-form comparison against an argument-map table, index/loop agreement')
+
 # ---- everything not claimed above is pending / not applicable
 _pending = 'check not built yet in this session (see DESIGN.md build order); not claimed until it is'
 for _p in ['C%02d' % i for i in range(1, 21)]:
